@@ -61,6 +61,11 @@ def one_run(ctx, launch, uros, msgs, rng, k):
          "sim/dt_mag": float(rng.choice([1 / 100, 1 / 50, 1 / 20])), "logger/dt": float(rng.choice([1 / 200, 1 / 100, 0.013])),
          # the estimator's own rate limits are rate settings too: corrections slower than the sensors must still be applied
          "mrp/dt_min_accel": float(rng.choice([1 / 200, 1 / 200, 1 / 100, 1 / 50])), "mrp/dt_min_mag": float(rng.choice([1 / 200, 1 / 200, 1 / 40, 1 / 15]))}
+    # the configured magnitudes are configuration too (gravity is shared by simulator and estimator)
+    gval = float(rng.choice([9.8, 9.8, 9.81, 9.6, 10.1]))
+    P["sim/g"] = gval
+    P["mrp/g"] = gval
+    P["sim/mag_str"] = float(rng.choice([0.1, 0.1, 0.05, 0.3]))
     tf = 30.0
     params = {"tf": tf, "initialize": init, "estimators": ["mrp"], "x0": np.r_[r, b], "params": P}
     case = {"x0": np.r_[r, b], "initialize": init, **P}
@@ -122,6 +127,7 @@ def one_run(ctx, launch, uros, msgs, rng, k):
 
             def cb_att(m):
                 events.append("A")
+                rec.setdefault("att", {})[float(m.data["time"])] = np.array(m.data["q"], dtype=float).copy()
 
             def cb_est(m):
                 events.append("E")
@@ -178,6 +184,16 @@ def one_run(ctx, launch, uros, msgs, rng, k):
     if rec["mag"]:
         mn = np.array([np.linalg.norm(m) for _, m in rec["mag"]])
         ctx.check_array("magnetometer_magnitude_is_configured", "mag", np.abs(mn - mag_str) / mag_str, 1e-9, {"t": np.array([t for t, _ in rec["mag"]])})
+    # ---- message level: a sensor message and the truth message carrying the same time stamp describe the same instant
+    att = rec.get("att", {})
+    Bn_cfg = mag_str * (O.Rz(np.array(decl)) @ O.Ry(np.array(-incl)) @ np.array([1.0, 0, 0]))
+    ea = [np.abs(a - O.quat_to_R(att[t]).T @ np.array([0, 0, -g_cfg])).max() / g_cfg for t, a, _ in rec["imu"] if t in att]
+    em = [np.abs(m_ - O.quat_to_R(att[t]).T @ Bn_cfg).max() / mag_str for t, m_ in rec["mag"] if t in att]
+    if ea:
+        ctx.check_array("accelerometer_matches_same_stamp_truth", "imu", ea, 1e-9, {"index": np.arange(len(ea))})
+    if em:
+        ctx.check_array("magnetometer_matches_same_stamp_truth", "mag", em, 1e-9, {"index": np.arange(len(em))})
+    ctx.count("same_stamp_pairs", len(ea) + len(em))
     ctx.require("accelerometer_magnitude_is_g:imu")
     ctx.require("magnetometer_magnitude_is_configured:mag")
     # ---- offline checker over the returned log
